@@ -2,9 +2,9 @@
 # usage: seed3.sh <letter> [extra checks...] - confirms the round-3 seeded change /tmp/seedout3-<letter> and runs the checks of the
 # properties its README names (first line "PROPERTY: Cxx [Cyy]", second line "PACKAGE: <dir>")
 L=$1; shift
-OUT=/tmp/seedout3-$L
+OUT=/tmp/seedout${ROUND:-3}-$L
 PROPS=$(head -1 $OUT/README.txt | sed 's/^PROPERTY: *//' | tr ',' ' ')
-PKG=$(sed -n 2p $OUT/README.txt | sed 's/^PACKAGE: *//' | sed 's#^/tmp/seed3-[A-Z]/##')
+PKG=$(sed -n 2p $OUT/README.txt | sed 's/^PACKAGE: *//' | sed 's#^##')
 echo "### $L: properties=$PROPS package=$PKG"
 SEEDOUT=$OUT /verif/tools/seedtest.sh $L "$PKG" $PROPS "$@" 2>&1 | grep -v conda | grep "^ok\|^FAIL\|module:\|VIOLATION\|tier=\|patch does not"
 rm -rf /tmp/k8s_test_framework_*
